@@ -32,7 +32,22 @@ def _rt(attr):
     return ast.Attribute(value=ast.Name(id="_symrt_", ctx=ast.Load()), attr=attr, ctx=ast.Load())
 
 
+def _at(new, old):
+    """give a synthesised node (and its synthesised children) the source position of the node it replaces, so
+    that tracebacks of the instrumented code name the same source line as the native code"""
+    for n in ast.walk(new):
+        if not hasattr(n, "lineno") or getattr(n, "lineno", None) is None:
+            ast.copy_location(n, old)
+    return new
+
+
 class Rewriter(ast.NodeTransformer):
+    def visit(self, node):
+        new = super().visit(node)
+        if isinstance(new, ast.AST) and new is not node and isinstance(node, ast.expr):
+            _at(new, node)
+        return new
+
     def visit_Compare(self, node):
         self.generic_visit(node)
         if len(node.ops) == 1 and isinstance(node.ops[0], (ast.In, ast.NotIn)):
